@@ -71,7 +71,6 @@ type closure struct {
 
 type bad struct{}
 
-
 // Hash functions and equivalence relation:
 
 // hashString computes the FNV hash of s.
@@ -305,4 +304,3 @@ func toString(v value) string {
 
 // ------------------------------------------------------------------------
 // Iterators
-
